@@ -55,6 +55,9 @@ type c05Spec struct {
 	BackendChunk  string
 	Pace          string // none, yield, gap
 	SlowReader    string // none, client, backend
+	PauseSide     string // "", client, backend: that sender stops for Pause once PauseAt bytes are out (0 = before its first byte)
+	PauseAt       int
+	Pause         time.Duration
 	clientResult  chan c05SideResult
 	backendResult chan c05SideResult
 }
@@ -67,10 +70,30 @@ type c05SideResult struct {
 
 // sendStream writes n bytes of the stream (seed) with the given chunking and pacing.
 func sendStream(c net.Conn, seed uint64, n int, chunk, pace string, rnd *rand.Rand, abortAfter int) error {
+	return sendStreamP(c, seed, n, chunk, pace, rnd, abortAfter, -1, 0)
+}
+
+func (sp *c05Spec) pauseOf(side string) (int, time.Duration) {
+	if sp.PauseSide == side {
+		return sp.PauseAt, sp.Pause
+	}
+	return -1, 0
+}
+
+// sendStreamP is sendStream with one pause of the given length once pauseAt bytes have been written (pauseAt < 0: none).
+func sendStreamP(c net.Conn, seed uint64, n int, chunk, pace string, rnd *rand.Rand, abortAfter int, pauseAt int, pause time.Duration) error {
 	g := newStreamGen(seed)
 	buf := make([]byte, 64*1024)
 	sent := 0
+	if pauseAt == 0 {
+		time.Sleep(pause)
+		pauseAt = -1
+	}
 	for sent < n {
+		if pauseAt > 0 && sent >= pauseAt {
+			time.Sleep(pause)
+			pauseAt = -1
+		}
 		k := len(buf)
 		switch chunk {
 		case "1":
@@ -84,6 +107,9 @@ func sendStream(c net.Conn, seed uint64, n int, chunk, pace string, rnd *rand.Ra
 		}
 		if k > n-sent {
 			k = n - sent
+		}
+		if pauseAt > sent && k > pauseAt-sent {
+			k = pauseAt - sent
 		}
 		if chunk == "1" && sent > 4096 {
 			k = min(n-sent, len(buf)) // the single-byte phase covers the first 4 KiB
@@ -155,7 +181,7 @@ func halfClose(c net.Conn) {
 }
 
 func c05(r *ev.Run) {
-	r.Rule("connections through the real TCP proxy to a scripted backend: stream lengths {0, 1, 16383, 16384, 16385, 3x16384+7, hundreds of KiB, several MiB (up to 64 MiB in thorough)} in both directions, chunkings {1 byte, small PRNG, 16 KiB edges, 64 KiB}, pacing {none, yields, 1 ms gaps}, slow reader on either side (back-pressure), close orders {client half-closes first, backend first, simultaneous, abrupt close by either side mid-stream}, 1-128 concurrent connections; each receiver recomputes the sender's PRNG stream; distinct = distinct (length classes, close order, chunking, slow side) tuples")
+	r.Rule("connections through the real TCP proxy to a scripted backend: stream lengths {0, 1, 16383, 16384, 16385, 3x16384+7, hundreds of KiB, several MiB (up to 64 MiB in thorough)} in both directions, chunkings {1 byte, small PRNG, 16 KiB edges, 64 KiB}, pacing {none, yields, 1 ms gaps}, slow reader on either side (back-pressure), close orders {client half-closes first, backend first, simultaneous, abrupt close by either side mid-stream}, 1-128 concurrent connections; a phase where one sender pauses for 1 s (connect timeout 300 ms, idle timeout 30 s) before or in the middle of its stream; each receiver recomputes the sender's PRNG stream; distinct = distinct (length classes, close order, chunking, slow side) tuples")
 	r.Assume("the backend learns which connection it serves from an 8-byte id the client sends first (relayed like any other bytes)")
 	for _, race := range []bool{false, true} {
 		s, err := startSUT(r, race, 0, 0)
@@ -170,7 +196,14 @@ func c05(r *ev.Run) {
 		if race {
 			n /= 5
 		}
-		c05Run(r, s, r.Seed*7+int64(len(fmt.Sprint(race))), n, race)
+		c05Run(r, s, r.Seed*7+int64(len(fmt.Sprint(race))), n, race, false)
+		if !race {
+			np := 24
+			if r.Tier == "thorough" {
+				np = 200
+			}
+			c05Run(r, s, r.Seed*11+5, np, race, true)
+		}
 		if race {
 			for _, rr := range raceReports(s, []string{"proc/tcp/proc.go"}) {
 				r.Violation("C05:race:"+rr.Key, "data race in the TCP relay (pooled buffers)", map[string]interface{}{"report": rr.Text})
@@ -180,10 +213,13 @@ func c05(r *ev.Run) {
 		s.Close()
 	}
 	r.Require("connections_judged", 200)
+	r.Require("connections_with_a_pausing_peer", 20)
 	r.Require("bytes_verified", 40<<20)
 }
 
-func c05Run(r *ev.Run, s *sutc.SUT, seed int64, nconns int, race bool) {
+// paused = the "pausing peers" phase: connect timeout 300 ms, idle timeout 30 s, and one sender per connection stops for 1 s (longer
+// than the connect timeout, far shorter than the idle timeout) before its first byte or in the middle of its stream.
+func c05Run(r *ev.Run, s *sutc.SUT, seed int64, nconns int, race bool, paused bool) {
 	rnd := rand.New(rand.NewSource(seed))
 	var specs sync.Map
 	backend, err := tcpsim.NewBackend(func(b *tcpsim.Backend, c net.Conn) {
@@ -199,16 +235,17 @@ func c05Run(r *ev.Run, s *sutc.SUT, seed int64, nconns int, race bool) {
 		}
 		sp := v.(*c05Spec)
 		brnd := rand.New(rand.NewSource(int64(sp.ID)))
+		bpAt, bp := sp.pauseOf("backend")
 		var res c05SideResult
 		switch sp.Order {
 		case "client-first":
 			res = recvStream(c, sp.ID*2, sp.ClientLen, sp.SlowReader == "backend")
-			if err := sendStream(c, sp.ID*2+1, sp.BackendLen, sp.BackendChunk, sp.Pace, brnd, 0); err != nil && res.Problem == "" {
+			if err := sendStreamP(c, sp.ID*2+1, sp.BackendLen, sp.BackendChunk, sp.Pace, brnd, 0, bpAt, bp); err != nil && res.Problem == "" {
 				res.Problem = "backend could not send after the client finished (opposite direction must keep flowing): " + err.Error()
 			}
 			halfClose(c)
 		case "backend-first":
-			if err := sendStream(c, sp.ID*2+1, sp.BackendLen, sp.BackendChunk, sp.Pace, brnd, 0); err != nil {
+			if err := sendStreamP(c, sp.ID*2+1, sp.BackendLen, sp.BackendChunk, sp.Pace, brnd, 0, bpAt, bp); err != nil {
 				res.Problem = "backend send: " + err.Error()
 			}
 			halfClose(c)
@@ -219,7 +256,7 @@ func c05Run(r *ev.Run, s *sutc.SUT, seed int64, nconns int, race bool) {
 		case "simultaneous", "client-abort":
 			done := make(chan error, 1)
 			go func() {
-				err := sendStream(c, sp.ID*2+1, sp.BackendLen, sp.BackendChunk, sp.Pace, brnd, 0)
+				err := sendStreamP(c, sp.ID*2+1, sp.BackendLen, sp.BackendChunk, sp.Pace, brnd, 0, bpAt, bp)
 				halfClose(c)
 				done <- err
 			}()
@@ -243,7 +280,11 @@ func c05Run(r *ev.Run, s *sutc.SUT, seed int64, nconns int, race bool) {
 		return
 	}
 	defer backend.Close()
-	svc, err := startTCPSvc(s, []sutc.Host{{Addr: backend.Addr}}, TCPOpts{})
+	opts := TCPOpts{}
+	if paused {
+		opts = TCPOpts{ConnTimeout: 300 * time.Millisecond, IdleTimeout: 30 * time.Second}
+	}
+	svc, err := startTCPSvc(s, []sutc.Host{{Addr: backend.Addr}}, opts)
 	if err != nil {
 		r.Internal("%v", err)
 		return
@@ -283,6 +324,14 @@ func c05Run(r *ev.Run, s *sutc.SUT, seed int64, nconns int, race bool) {
 				ClientChunk: []string{"1", "small", "64k", "16k-edge"}[rnd.Intn(4)], BackendChunk: []string{"1", "small", "64k", "16k-edge"}[rnd.Intn(4)],
 				Pace: []string{"none", "none", "yield", "gap"}[rnd.Intn(4)], SlowReader: []string{"none", "none", "client", "backend"}[rnd.Intn(4)],
 				clientResult: make(chan c05SideResult, 1), backendResult: make(chan c05SideResult, 1)}
+			if paused {
+				sp.Order = []string{"client-first", "backend-first", "simultaneous"}[rnd.Intn(3)]
+				sp.PauseSide = []string{"client", "backend"}[rnd.Intn(2)]
+				sp.Pause = time.Second
+				if l := map[string]int{"client": sp.ClientLen, "backend": sp.BackendLen}[sp.PauseSide]; rnd.Intn(2) == 0 && l > 1 {
+					sp.PauseAt = 1 + rnd.Intn(l-1)
+				}
+			}
 			if sp.ClientLen+sp.BackendLen > 4<<20 {
 				sp.ClientChunk, sp.BackendChunk, sp.Pace = "64k", "64k", "none"
 			}
@@ -295,6 +344,7 @@ func c05Run(r *ev.Run, s *sutc.SUT, seed int64, nconns int, race bool) {
 				defer wg.Done()
 				defer specs.Delete(sp.ID)
 				crnd := rand.New(rand.NewSource(int64(sp.ID) * 3))
+				cpAt, cp := sp.pauseOf("client")
 				w := func(side, problem string) map[string]interface{} {
 					return map[string]interface{}{"spec": fmt.Sprintf("%+v", *sp), "side": side, "problem": problem, "concurrent_connections": conc}
 				}
@@ -310,7 +360,7 @@ func c05Run(r *ev.Run, s *sutc.SUT, seed int64, nconns int, race bool) {
 				var cres c05SideResult
 				switch sp.Order {
 				case "client-first":
-					if err := sendStream(c, sp.ID*2, sp.ClientLen, sp.ClientChunk, sp.Pace, crnd, 0); err != nil {
+					if err := sendStreamP(c, sp.ID*2, sp.ClientLen, sp.ClientChunk, sp.Pace, crnd, 0, cpAt, cp); err != nil {
 						cres.Problem = "client send: " + err.Error()
 					}
 					halfClose(c)
@@ -320,14 +370,14 @@ func c05Run(r *ev.Run, s *sutc.SUT, seed int64, nconns int, race bool) {
 					}
 				case "backend-first":
 					cres = recvStream(c, sp.ID*2+1, sp.BackendLen, sp.SlowReader == "client")
-					if err := sendStream(c, sp.ID*2, sp.ClientLen, sp.ClientChunk, sp.Pace, crnd, 0); err != nil && cres.Problem == "" {
+					if err := sendStreamP(c, sp.ID*2, sp.ClientLen, sp.ClientChunk, sp.Pace, crnd, 0, cpAt, cp); err != nil && cres.Problem == "" {
 						cres.Problem = "client could not send after the backend finished (opposite direction must keep flowing): " + err.Error()
 					}
 					halfClose(c)
 				case "simultaneous", "backend-abort":
 					done := make(chan error, 1)
 					go func() {
-						err := sendStream(c, sp.ID*2, sp.ClientLen, sp.ClientChunk, sp.Pace, crnd, 0)
+						err := sendStreamP(c, sp.ID*2, sp.ClientLen, sp.ClientChunk, sp.Pace, crnd, 0, cpAt, cp)
 						halfClose(c)
 						done <- err
 					}()
@@ -351,6 +401,10 @@ func c05Run(r *ev.Run, s *sutc.SUT, seed int64, nconns int, race bool) {
 					bres.Problem = "backend side never finished"
 				}
 				class := fmt.Sprintf("%s/c%s/b%s/%s/slow-%s", sp.Order, lenClass(sp.ClientLen), lenClass(sp.BackendLen), sp.ClientChunk, sp.SlowReader)
+				if sp.PauseSide != "" {
+					class += fmt.Sprintf("/pause-%s-at-%s", sp.PauseSide, map[bool]string{true: "start", false: "middle"}[sp.PauseAt == 0])
+					r.Count("connections_with_a_pausing_peer", 1)
+				}
 				switch sp.Order {
 				case "client-first", "backend-first", "simultaneous":
 					for _, x := range []struct {
